@@ -759,7 +759,7 @@ def write_cache_time(f: IO[bytes], t: int | float | tuple[int, int]) -> None:
         t = (int(secs), int(nsecs * 1000000000))
     elif not isinstance(t, tuple):
         raise TypeError(t)
-    f.write(struct.pack(">LL", *t))
+    f.write(struct.pack(">LL", t[0] & 0xFFFFFFFF, t[1]))
 
 
 def read_cache_entry(
